@@ -445,16 +445,34 @@ def run_ndict(case):
     return hist
 
 
-# ---------------------------------------------------------------- List(List(...List(T))) of any depth
+# ---------------------------------------------------------------- any nesting of List(...) and Dict(K, ...)
+# type spec: ["A", vk] | ["L", inner, minlen, maxlen] | ["D", kk, value type]
+# raw / stored values: atom (int) | list | {"d": [[key atom, value], ...]}
+def deep_trait(t):
+    if t[0] == "A":
+        return INNER[t[1]]
+    if t[0] == "L":
+        return List(deep_trait(t[1]), **list_kw(t[2], t[3]))
+    return Dict(INNER[t[1]], deep_trait(t[2]))
+
+
 def deep_val(r):
+    if isinstance(r, dict):
+        return dict((val(k), deep_val(v)) for k, v in r["d"])
     return [deep_val(x) for x in r] if isinstance(r, list) else val(r)
 
 
-def deep_init(vk, r):
-    return [deep_init(vk, x) for x in r] if isinstance(r, list) else raw_init(vk, r)
+def deep_init(t, r):
+    if t[0] == "A":
+        return raw_init(t[1], r)
+    if t[0] == "L":
+        return [deep_init(t[1], x) for x in r]
+    return dict((raw_init(t[1], k), deep_init(t[2], v)) for k, v in r["d"])
 
 
 def deep_enc(v):
+    if isinstance(v, dict):
+        return {"d": [[atom(k), deep_enc(x)] for k, x in v.items()]}
     return [deep_enc(x) for x in v] if isinstance(v, list) else atom(v)
 
 
@@ -463,16 +481,67 @@ def deep_attach(rec, v):
         rec.attach(v, rec.on_outer)
         for x in v:
             deep_attach(rec, x)
+    elif isinstance(v, dict):
+        rec.attach(v, rec.on_dict)
+        for x in v.values():
+            deep_attach(rec, x)
+
+
+def deep_list_op(tl, g):
+    k = g[0]
+    if k == "GAppend":
+        tl.append(deep_val(g[1]))
+    elif k == "GExtend":
+        tl.extend([deep_val(r) for r in g[1]])
+    elif k == "GInsert":
+        tl.insert(g[1], deep_val(g[2]))
+    elif k == "GSetInt":
+        tl[g[1]] = deep_val(g[2])
+    elif k == "GSetSlice":
+        tl[L.sl(g[1])] = [deep_val(r) for r in g[2]]
+    elif k == "GDelInt":
+        del tl[g[1]]
+    elif k == "GDelSlice":
+        del tl[L.sl(g[1])]
+    elif k == "GPop":
+        tl.pop() if g[1] is None else tl.pop(g[1])
+    elif k == "GReverse":
+        tl.reverse()
+    elif k == "GClear":
+        tl.clear()
+    elif k == "GRemove":
+        tl.remove(deep_val(g[1]))
+    elif k == "GSort":
+        tl.sort(reverse=bool(g[1]))
+    elif k == "GImul":
+        if operator.imul(tl, g[1]) is not tl:
+            raise RuntimeError("*= returned a new object")
+    else:
+        raise ValueError(k)
+
+
+def deep_dict_op(td, g):
+    k = g[0]
+    if k == "DgSetItem":
+        td[val(g[1])] = deep_val(g[2])
+    elif k == "DgUpdate":
+        td.update(dict((val(a), deep_val(r)) for a, r in g[1]))
+    elif k == "DgSetDefault":
+        td.setdefault(val(g[1]), deep_val(g[2]))
+    elif k == "DgDelItem":
+        del td[val(g[1])]
+    elif k == "DgPop":
+        td.pop(val(g[1]))
+    elif k == "DgClear":
+        td.clear()
+    else:
+        raise ValueError(k)
 
 
 def run_deep(case):
-    def mk():
-        t = INNER[case["vk"]]
-        for mn, mx in reversed(case["bounds"]):          # bounds are listed from the outermost level inwards
-            t = List(t, **list_kw(mn, mx))
-        return t
-    owner = cls_for(("deep", case["vk"], json_key(case["bounds"])), mk)()
-    owner.x = deep_init(case["vk"], case["init"])
+    t = case["type"]
+    owner = cls_for(("deep", repr(t)), lambda: deep_trait(t))()
+    owner.x = deep_init(t, case["init"])
     rec = Rec(owner)
     hist = []
     for op in case["ops"]:
@@ -483,48 +552,32 @@ def run_deep(case):
             if op[0] == "Assign":
                 owner.x = deep_val(op[1])
             else:
-                tl = owner.x
-                for j in op[1]:
-                    if not isinstance(tl, list):
-                        raise TypeError("the path leaves the lists")
-                    if not 0 <= j < len(tl):
-                        raise IndexError("no such inner list")
-                    tl = tl[j]
-                if not isinstance(tl, list):
-                    raise TypeError("the path leaves the lists")
-                g = op[2]
-                k = g[0]
-                if k == "GAppend":
-                    tl.append(deep_val(g[1]))
-                elif k == "GExtend":
-                    tl.extend([deep_val(r) for r in g[1]])
-                elif k == "GInsert":
-                    tl.insert(g[1], deep_val(g[2]))
-                elif k == "GSetInt":
-                    tl[g[1]] = deep_val(g[2])
-                elif k == "GSetSlice":
-                    tl[L.sl(g[1])] = [deep_val(r) for r in g[2]]
-                elif k == "GDelInt":
-                    del tl[g[1]]
-                elif k == "GDelSlice":
-                    del tl[L.sl(g[1])]
-                elif k == "GPop":
-                    tl.pop() if g[1] is None else tl.pop(g[1])
-                elif k == "GReverse":
-                    tl.reverse()
-                elif k == "GClear":
-                    tl.clear()
+                node = owner.x
+                for e in op[1]:
+                    if isinstance(e, dict):
+                        if not isinstance(node, dict):
+                            raise TypeError("the path leaves the containers")
+                        node = node[val(e["k"])]
+                    else:
+                        if not isinstance(node, list):
+                            raise TypeError("the path leaves the containers")
+                        if not 0 <= e < len(node):
+                            raise IndexError("no such inner list")
+                        node = node[e]
+                kind, g = op[2]
+                if kind == "L":
+                    if not isinstance(node, list):
+                        raise TypeError("not a list")
+                    deep_list_op(node, g)
                 else:
-                    raise ValueError(k)
+                    if not isinstance(node, dict):
+                        raise TypeError("not a dict")
+                    deep_dict_op(node, g)
         except Exception as e:  # noqa
             out = exn(e)
         rec.failed(out)
         hist.append({"out": out, "after": deep_enc(owner.x), "nev": rec.n})
     return hist
-
-
-def json_key(x):
-    return tuple(tuple(b) for b in x)
 
 
 # ---------------------------------------------------------------- default values: first read of a never-assigned trait
@@ -601,6 +654,7 @@ def main():
     fn = {"list": run_list, "set": run_set, "dict": run_dict, "nested": run_nested, "ndict": run_ndict,
           "deep": run_deep, "default": run_default}
     def one(c):
+        L.reset_pool()
         _FALSY[0] = c.get("falsy")
         return fn[c["kind"]](c)
     if isinstance(p, list):              # vlib.hist passes the bare list of cases; each names its kind
